@@ -1617,6 +1617,20 @@ def np_isnan(I, a, k):
     return False                         # the reals of the model have no NaN (assumption listed in every evidence file)
 
 
+def math_log(I, a, k):
+    """math.log(x): ValueError for x <= 0 (one path per case), else the same uninterpreted LOG as numpy.log"""
+    if len(a) != 1 or k:
+        raise Unsupported('math.log with a base')
+    x = a[0]
+    if numkind(x) is None:
+        raise PyExc('TypeError', 'must be real number')
+    t = zreal(x)
+    if not I.st.branch(t > 0):
+        raise PyExc('ValueError', 'math domain error')
+    I.st.trusted.add('math.log: uninterpreted LOG (no axioms) on positive arguments, ValueError otherwise')
+    return SV(LOGf(t), 'real')
+
+
 def np_log(I, a, k):
     x = a[0]
     t = zreal(x)
@@ -1711,6 +1725,7 @@ def lib_lookup(I, dotted):
         'numpy.isinf': Builtin('numpy.isinf', np_isinf),
         'numpy.isnan': Builtin('numpy.isnan', np_isnan),
         'numpy.log': Builtin('numpy.log', np_log),
+        'math.log': Builtin('math.log', math_log),
         'numpy.ndarray': Builtin('numpy.ndarray', lambda I_, a, k: _unsup('ndarray()')),
         'numpy.sum': Builtin('numpy.sum', np_sum),
         'numpy.ptp': Builtin('numpy.ptp', np_ptp),
